@@ -298,7 +298,10 @@ where
     fn on_record(&self, id: &Id, values: &Record<'_>, ctx: Context<'_, S>) {
         let span = ctx.span(id).unwrap();
         if let Some(id) = self.captured_id(&span) {
-            self.lock().on_record(id, TracedValues::from_record(values));
+            // Render the values before locking the storage: their `Debug` impls are user code
+            // that may itself emit tracing events, which are captured under the same lock.
+            let values = TracedValues::from_record(values);
+            self.lock().on_record(id, values);
         };
     }
 
